@@ -277,9 +277,24 @@ pub fn truncate_json(j: &J, max: usize) -> J {
     }
 }
 
+/// VERIF_SURVEY=1: development aid — failing cases are appended to
+/// target/survey-<ID>.log and the run continues (never used by registered commands).
+pub fn survey_mode() -> bool {
+    std::env::var("VERIF_SURVEY").map(|v| v == "1").unwrap_or(false)
+}
+
+thread_local! {
+    static IN_GUARD: std::cell::Cell<bool> = const { std::cell::Cell::new(false) };
+}
+pub fn in_guard() -> bool {
+    IN_GUARD.with(|g| g.get())
+}
+
 /// Run a test on one case, converting panics into failures with the message.
 fn guarded_test<C: Check>(check: &C, case: &C::Case, obs: &mut Obs) -> Verdict {
+    IN_GUARD.with(|g| g.set(true));
     let r = std::panic::catch_unwind(std::panic::AssertUnwindSafe(|| check.test(case, obs)));
+    IN_GUARD.with(|g| g.set(false));
     match r {
         Ok(v) => v,
         Err(e) => {
@@ -423,6 +438,30 @@ impl<C: Check> DynCheck for C {
                             cx.record(name, &cj, obs, &v);
                             done.fetch_add(1, Ordering::Relaxed);
                         }
+                        if survey_mode() {
+                            // development aid: log every failing case (classified or
+                            // not) and keep going; never used by registered commands
+                            let logged = match &v {
+                                Verdict::Fail(m) => Some(("UNCLASSIFIED".to_string(), m.clone())),
+                                Verdict::Known { id, msg } => Some((id.clone(), msg.clone())),
+                                _ => None,
+                            };
+                            if let Some((class, msg)) = logged {
+                                use std::io::Write;
+                                static SURVEY_LOCK: Mutex<()> = Mutex::new(());
+                                let _g = SURVEY_LOCK.lock().unwrap();
+                                let p = verif_root().join("target").join(format!("survey-{}.log", cx.property));
+                                if let Ok(mut f) = std::fs::OpenOptions::new().create(true).append(true).open(p) {
+                                    let _ = writeln!(f, "=== {} [{}]\n{}\n", name, class, msg);
+                                }
+                                let p = verif_root().join("target").join(format!("survey-{}.jsonl", cx.property));
+                                if let Ok(mut f) = std::fs::OpenOptions::new().create(true).append(true).open(p) {
+                                    let doc = json!({"property": cx.property, "check": name, "class": class, "expect": "pass", "message": msg, "case": serde_json::to_value(&case).unwrap()});
+                                    let _ = writeln!(f, "{}", doc);
+                                }
+                            }
+                            return Ok(());
+                        }
                         match bad {
                             None => Ok(()),
                             Some(msg) => {
@@ -539,7 +578,7 @@ pub fn replay_tier(cx: &RunCtx, checks: &[Box<dyn DynCheck>]) -> usize {
                     cx.property,
                     k.id,
                     k.summary,
-                    first_lines(msg, 2)
+                    first_lines(msg, 1)
                 );
                 let mut kl = cx.known_lines.lock().unwrap();
                 if !kl.iter().any(|l| l.contains(&format!(" {} — ", k.id))) {
@@ -554,7 +593,7 @@ pub fn replay_tier(cx: &RunCtx, checks: &[Box<dyn DynCheck>]) -> usize {
                     cx.property,
                     k.id,
                     k.summary,
-                    first_lines(msg, 2)
+                    first_lines(msg, 1)
                 );
                 println!("{}", line);
                 cx.known_lines.lock().unwrap().push(line);
